@@ -12,7 +12,7 @@ import ast
 from typing import Dict, List, Optional, Set, Tuple
 
 from ..model import Program, AnalysisError, FuncInfo, ClassInfo, walk_local, dotted
-from ..report import RuleResult
+from ..report import RuleResult, guard
 from ..astutil import src, site, calls_in, call_name, is_self_attr, kwarg, const_value
 from ..cfg import CFG
 from ..dtable import explore_block, Sym
@@ -352,8 +352,10 @@ def dao_value_truth(prog: Program) -> RuleResult:
             tg = x.target if isinstance(x, (ast.For, ast.comprehension)) else None
             if tg is not None:
                 varying |= {y.id for y in ast.walk(tg) if isinstance(y, ast.Name)}
+        # ... and any other name that is not a constant (relationship.key, column.name of a parameter): which field is read is decided by the
+        # class being converted, so the value is that class's data
         reads = [c for c in [x for x in walk_local(f.node) if isinstance(x, ast.Call)] if isinstance(c.func, ast.Name) and c.func.id == "getattr" and len(c.args) >= 2
-                 and any(isinstance(y, ast.Name) and y.id in varying for y in ast.walk(c.args[1]))]
+                 and not isinstance(c.args[1], ast.Constant)]
         if not reads:
             continue
         # locals bound to such a read
@@ -722,4 +724,4 @@ def _exact_dao(prog):
 
 
 def run(prog: Program, tier: str) -> List[RuleResult]:
-    return [idkey(prog), dao_order(prog), dao_direction(prog), dao_collect(prog), dao_window(prog), dao_value_truth(prog), dao_fresh(prog), _opt_truth(prog), _shared_default(prog), dao_args(prog), dao_kwargs(prog), dao_partition(prog), _exact_dao(prog), dao_container(prog), dao_init_in_place(prog), dao_alt_ancestor(prog)]
+    return [guard(lambda: idkey(prog)), guard(lambda: dao_order(prog)), guard(lambda: dao_direction(prog)), guard(lambda: dao_collect(prog)), guard(lambda: dao_window(prog)), guard(lambda: dao_value_truth(prog)), guard(lambda: dao_fresh(prog)), guard(lambda: _opt_truth(prog)), guard(lambda: _shared_default(prog)), guard(lambda: dao_args(prog)), guard(lambda: dao_kwargs(prog)), guard(lambda: dao_partition(prog)), guard(lambda: _exact_dao(prog)), guard(lambda: dao_container(prog)), guard(lambda: dao_init_in_place(prog)), guard(lambda: dao_alt_ancestor(prog))]
